@@ -63,4 +63,18 @@ theorem toEnv_fields (fold : Str → Str) (s : StaticEnv N) :
     (StaticEnv.toEnv fold s).fnExists = SrcEnv.function_exists fold s := by
   rw [toEnv_is_source]; exact ⟨rfl, rfl, rfl, rfl⟩
 
+/-- the mutating operations of `StaticEnvironment` as read off the source are the model's -/
+theorem addVariable_is_source (fold : Str → Str) (s : StaticEnv N) (n : Str) (v : Value N) :
+    StaticEnv.addVariable fold s n v = SrcEnv.add_variable fold s n v := rfl
+theorem removeVariable_is_source (fold : Str → Str) (s : StaticEnv N) (n : Str) :
+    StaticEnv.removeVariable fold s n = SrcEnv.remove_variable fold s n := rfl
+theorem clearVariables_is_source (s : StaticEnv N) : StaticEnv.clearVariables s = SrcEnv.clear_variables s := rfl
+theorem addFunction_is_source (fold : Str → Str) (s : StaticEnv N) (f : Fn N) :
+    StaticEnv.addFunction fold s f = SrcEnv.add_function fold s f := rfl
+theorem addFunctions_is_source (fold : Str → Str) (s : StaticEnv N) (fs : List (Fn N)) :
+    StaticEnv.addFunctions fold s fs = SrcEnv.add_functions fold s fs := rfl
+theorem removeFunction_is_source (fold : Str → Str) (s : StaticEnv N) (n : Str) :
+    StaticEnv.removeFunction fold s n = SrcEnv.remove_function fold s n := rfl
+theorem listFunctions_is_source (s : StaticEnv N) : StaticEnv.listFunctions s = SrcEnv.list_functions s := rfl
+
 end Slac.C19Source
